@@ -39,7 +39,7 @@ def gen_cases(tier, seed):
         r = max(2, reps // e.slow)
         for i in range(r):
             s = stable_hash(seed, "C05", name, i)
-            cases.append({"entry": name, "seed": s, "wrap": WRAPS[(i + s) % len(WRAPS)] if i else "none", "prefit": bool((i // 2) % 2),
+            cases.append({"entry": name, "seed": s, "wrap": WRAPS[(i + s) % len(WRAPS)] if i else "none", "prefit": [False, True, "other"][(i + (s >> 13)) % 3],
                           "weights": bool((s >> 3) % 2), "nq": 1 + (s >> 5) % 3,
                           "nmax": 12 if tier == "quick" else 24})
     r = {"quick": 12, "thorough": 300}[tier]
@@ -210,7 +210,7 @@ def run_case(desc):
             add("post-query-clone-raises", repr(ex)[:200])
     for v in viol:
         v["trigger"] = "any"
-    nontrivial = call["lazy"] or fit_mode == "prefit" or wrap != "none"
+    nontrivial = call["lazy"] or fit_mode in ("prefit", "prefit_other") or wrap != "none"
     cells = ["wrap=%s" % wrap]
     if wrap != "iet":
         cells.append("%s|sideeffects" % desc["entry"])
@@ -234,7 +234,24 @@ def _build_call(c, desc, wrap, rng):
 
     def model_kwargs():
         kw = dict(e.kwargs(c.ctx))
-        if desc["prefit"] and fit_name and e.model_arg in kw:
+        if desc["prefit"] == "other" and fit_name and e.model_arg in kw:
+            # the caller's model has been fitted before on OTHER data and is passed with the default fit_*=True: the
+            # strategy must train a private copy and leave the caller's fitted model exactly as it is
+            r2 = np.random.RandomState(seed % (2**31 - 1))
+            X2 = c.X + r2.randn(*c.X.shape)
+            y2 = c.y_true.copy() if c.kind != "reg" else np.round(r2.randn(c.n), 2)
+            y2 = np.where(r2.rand(c.n) < 0.3, np.nan, y2)
+            if np.isnan(y2).all():
+                y2[0] = c.y_true[0]
+            m = kw[e.model_arg]
+            try:
+                for x in (m if isinstance(m, list) else [m]):
+                    x.fit(X2, y2)
+                kw["__fitted_on_other_data__"] = True
+            except Exception:
+                return None
+            return kw
+        if desc["prefit"] is True and fit_name and e.model_arg in kw:
             m = kw[e.model_arg]
             try:
                 if isinstance(m, list):
@@ -252,6 +269,8 @@ def _build_call(c, desc, wrap, rng):
         mk = dict(e.kwargs(c.ctx))
     if mk.get(fit_name) is False:
         fit_mode = "prefit"
+    if mk.pop("__fitted_on_other_data__", False):
+        fit_mode = "prefit_other"
     sw = None
     if desc["weights"]:
         sw = rng.rand(c.n) + 0.1
@@ -327,6 +346,7 @@ def _build_call(c, desc, wrap, rng):
         m2 = model_kwargs()
         if m2 is None:
             m2 = dict(e.kwargs(c.ctx))
+        m2.pop("__fitted_on_other_data__", None)
         return mk_kw(m2)
 
     return {"make": make, "kw": kw, "fresh_kw": fresh_kw, "label": "%s|%s|%s" % (c.data, c.labels, c.cmode),
